@@ -493,7 +493,9 @@ func init() {
 				if !coll {
 					return false
 				}
-				return anyNode(c, strictNullOp)
+				// the compiled program fails on a NULL operand, or because it was typed by an earlier row
+				// (text then NULL, int then float64): some referenced column is NULL/absent on some row
+				return anyNode(c, strictNullOp) || nullOrAbsentCol(c)
 			},
 		},
 		{
